@@ -123,6 +123,8 @@ pub struct HState {
     pub anchors: Vec<Vec<f64>>,
     /// translation of the input-space data (0 = none)
     pub shift: f64,
+    /// C06: operands of compose must have both branches at every decision
+    pub total_operands_only: bool,
     /// false once the reference became too large to track (only well-formedness is checked then)
     pub tracking: bool,
 }
@@ -183,7 +185,7 @@ pub fn init(h: &History) -> Result<HState, Failure> {
             if t_off != 0.0 {
                 crate::lp::set_box_center(Some(vec![crate::exact::Q::from_f64(t_off); dim]));
             }
-            let st = HState { t, r: s.reference(dim), in_dim: dim, out_dim: s.out_dim(dim), anchors: h.anchors.iter().map(|a| sh(project_vec(a, dim))).collect(), shift: t_off, tracking: s.is_exact() };
+            let st = HState { t, r: s.reference(dim), in_dim: dim, out_dim: s.out_dim(dim), anchors: h.anchors.iter().map(|a| sh(project_vec(a, dim))).collect(), shift: t_off, total_operands_only: false, tracking: s.is_exact() };
             return Ok(st);
         }
         Ctor::Tree(ts) => {
@@ -195,7 +197,7 @@ pub fn init(h: &History) -> Result<HState, Failure> {
             (rn.build::<2>(&ts.order, &ts.junk), rn.to_ref(), out)
         }
     };
-    Ok(HState { t, r, in_dim: n, out_dim: out, anchors, shift: t_off, tracking: true })
+    Ok(HState { t, r, in_dim: n, out_dim: out, anchors, shift: t_off, total_operands_only: false, tracking: true })
 }
 
 fn ref_small(r: &Ref) -> bool {
@@ -242,6 +244,25 @@ pub fn step(st: &mut HState, op: &HOp) -> Result<StepInfo, Failure> {
                 info.desc = format!("{} skipped: result would be too large", info.desc);
                 return Ok(info);
             }
+            // an operand that has been pruned before carries cached feasibility states of its own (a block
+            // distilled separately, a layer tree that is re-used); chosen by spare bits of `out`
+            let mut gt = gt;
+            if (*out >> 4) & 3 == 3 {
+                let unpruned = gt.clone();
+                must("infeasible_elimination on the operand", || gt.infeasible_elimination())?;
+                // the root of a pruned tree may keep a single branch (it is never forwarded); where the pipeline
+                // needs total operands (C06) such an operand is used unpruned
+                let total = gt.tree.node_iter().all(|(_, n)| {
+                    let k = n.children.iter().filter(|c| c.is_some()).count();
+                    k == 0 || k == 2
+                });
+                if st.total_operands_only && !total {
+                    gt = unpruned;
+                } else {
+                    info.desc = format!("{} [operand pruned first]", info.desc);
+                }
+            }
+            let gt = gt;
             // the VERBOSE parameter (progress visitor instead of the no-op one) is chosen by spare bits of `out`
             let verbose = (*out >> 2) & 3 == 3;
             if verbose {
